@@ -29,7 +29,7 @@ CONFIG = {
     'user_havoc': 'all',
     # A-PRIV: user steps and predicates do not touch steppers, instructions or the outline
     'protected_classes': ['plumpy.workchains.Stepper', 'plumpy.workchains._Instruction', 'plumpy.workchains._Conditional',
-                          'plumpy.base.state_machine.StateMachine'],
+                          'plumpy.base.state_machine.StateMachine', 'plumpy.persistence.LoadSaveContext'],
 }
 
 
@@ -120,10 +120,12 @@ def is_true(self, workflow):
 def wf_blockstepper(s):
     """not finished: a current child exists, it is younger than its parent (ownership), the position is inside the block"""
     return (type_is(s, _BlockStepper) and is_int(s._pos) and 0 <= ival(s._pos) and ival(s._pos) < len(seq(s._block._instruction))
-            and isinstance(s._child_stepper, Stepper) and older(s, s._child_stepper))
+            and isinstance(s._child_stepper, Stepper) and older(s, s._child_stepper)
+            # the instruction in progress is the one `_pos` names (what a checkpoint records and a restore rebuilds from)
+            and ghost('FORINSTR', s._child_stepper) is seq(s._block._instruction)[ival(s._pos)])
 
 
-@contract('plumpy.workchains._BlockStepper.step', props=['C09'])
+@contract('plumpy.workchains._BlockStepper.step', props=['C09', 'C08'])
 def block_step(self):
     """a sequence executes its current instruction; exactly when that instruction reports finished does it move on to
     the next one (never skipping, never repeating), and it is finished after the last"""
@@ -141,6 +143,8 @@ def block_step(self):
                                                              and fresh(self._child_stepper) and older(self, self._child_stepper)
                                                              and ghost('FORINSTR', self._child_stepper) is seq(self._block._instruction)[pos0 + 1]))
     ensures('finished_has_no_child', implies(cf and pos0 + 1 == n, self._child_stepper is None))
+    ensures('position_names_the_instruction_in_progress', implies(self._child_stepper is not None, 0 <= ival(self._pos) and ival(self._pos) < n
+                                                                  and ghost('FORINSTR', self._child_stepper) is seq(self._block._instruction)[ival(self._pos)]))
     raises(_PropagateReturn, True)
     raises(Exception, True)
     replay('advances_by_exactly_one', 'outline_semantics')
@@ -148,7 +152,7 @@ def block_step(self):
 
 
 # ------------------------------------------------------------------------------------------------ loop
-@contract('plumpy.workchains._WhileStepper.step', props=['C09'])
+@contract('plumpy.workchains._WhileStepper.step', props=['C09', 'C08'])
 def while_step(self):
     """while_: the predicate is evaluated exactly when no iteration is in progress (i.e. before every iteration); false
     ends the loop without running a step function; true starts the body afresh; the loop itself never reports finished
@@ -185,6 +189,8 @@ def wf_ifstepper(s):
             and (s._child_stepper is None or (isinstance(s._child_stepper, Stepper) and older(s, s._child_stepper)
                                               and ival(s._pos) < len(seq(s._if_instruction._ifs))))
             and implies(s._child_stepper is None, ival(s._pos) == 0 or ival(s._pos) == len(seq(s._if_instruction._ifs)))
+            # the branch in progress is the one `_pos` names (this is what a checkpoint records and a restore rebuilds from)
+            and implies(s._child_stepper is not None, ghost('FORINSTR', s._child_stepper) is seq(s._if_instruction._ifs)[ival(s._pos)]._body)
             and forall('int', lambda i: implies(0 <= i and i < len(seq(s._if_instruction._ifs)),
                                                 type_is(seq(s._if_instruction._ifs)[i], _Conditional)
                                                 and type_is(seq(s._if_instruction._ifs)[i]._body, _Block)))
@@ -193,7 +199,7 @@ def wf_ifstepper(s):
                                                 and not is_function(seq(s._if_instruction._ifs)[i]._predicate))))
 
 
-@contract('plumpy.workchains._IfStepper.step', props=['C09'])
+@contract('plumpy.workchains._IfStepper.step', props=['C09', 'C08'])
 def if_step(self):
     """if_/elif_/else_: on the first step the predicates are evaluated in order until the first true one and no later one;
     the chosen body then runs (in the same step) to its end; no true predicate makes a step that calls no step function;
@@ -212,8 +218,12 @@ def if_step(self):
                                                                       else ival(self._pos) == pos0 and self._child_stepper is child0)))
     ensures('no_branch_taken_calls_only_the_predicates', implies(child0 is None and pos0 == 0 and len(calls()) == n0 + len(ifs)
                                                                  and ival(self._pos) == len(ifs) and seq(ret)[1] is None, seq(ret)[0] is True))
+    ensures('position_names_the_branch_in_progress', implies(self._child_stepper is not None,
+                                                             0 <= ival(self._pos) and ival(self._pos) < len(ifs)
+                                                             and ghost('FORINSTR', self._child_stepper) is ifs[ival(self._pos)]._body))
     raises(_PropagateReturn, True)
     raises(Exception, True)
+    replay('position_names_the_branch_in_progress', 'checkpoint_resume')
     # the predicate scan (loop 0): iteration i calls exactly the i-th predicate once (is_true's contract) and nothing else, so
     # after i iterations exactly the first i predicates were evaluated, in order, and none of them held (else `break`)
     loop_invariant(0, 'scan_pos', ival(self._pos) == _i and is_int(self._pos))
@@ -319,3 +329,208 @@ def _do_step(self):
     replay('stops_with_a_plain_value', 'outline_semantics')
     replay('finishes_after_the_last_instruction', 'outline_semantics')
     replay('continues_or_waits', 'outline_semantics')
+
+
+# ------------------------------------------------------------------------------------------------ checkpoints of the stepper tree (C07, C08)
+from plumpy.persistence import LoadSaveContext
+
+
+@spec
+def stepper_state_ok(s):
+    """a saved stepper state as Savable.save() without a custom loader produces it: a tree of private dictionaries, no
+    recorded loader class"""
+    return is_dict(s) and wf_state(s) and owned_state(s) and not has_custom_meta(s, 'object_loader')
+
+
+@contract('plumpy.workchains._Instruction.recreate_stepper', assumed=True, dispatch='static')
+def recreate_stepper(self, saved_state, workchain):
+    """ABSTRACT: the stepper of THIS instruction rebuilt from a saved state (each override is verified against this)"""
+    modifies()
+    ghost_update('FORINSTR', ret, self)
+    ghost_update('LOADED', saved_state, ret)
+    ensures(isinstance(ret, Stepper) and fresh(ret) and ghost('FORINSTR', ret) is self and ghost('LOADED', saved_state) is ret)
+    raises(Exception, True)
+
+
+@contract('plumpy.workchains._IfStepper.save_instance_state', props=['C07', 'C08'], ghost=['M', 'K'])
+def ifstepper_save(self, out_state, save_context, M=None, K=None):
+    """an if-stepper's checkpoint: the branch position, and the state of the branch in progress exactly when there is one"""
+    requires(M == '_pos' and K == 'stepper_state')     # the instances of save_members' pointwise contract that are used
+    requires(type_is(self, _IfStepper))
+    requires(wf_ifstepper(self) and is_dict(out_state) and wf_state(out_state) and not dhas(out_state, 'stepper_state'))
+    child = self._child_stepper
+    modifies(contents(out_state), contents(dget(out_state, '!!meta'), when=dhas(out_state, '!!meta')),
+             contents(dget(dget(out_state, '!!meta'), 'types'), when=dhas(out_state, '!!meta') and dhas(dget(out_state, '!!meta'), 'types')),
+             ghost('LASTSAVED'), self._persist_configured)
+    ensures('position_recorded', dhas(out_state, '_pos') and dget(out_state, '_pos') is self._pos)
+    ensures('branch_in_progress_recorded', dhas(out_state, 'stepper_state') == (child is not None)
+            and implies(child is not None, is_dict(dget(out_state, 'stepper_state'))
+                        and uf('saved_of', dget(out_state, 'stepper_state')) is child))
+    raises(Exception, child is not None)
+    replay('position_recorded', 'checkpoint_resume')
+    replay('branch_in_progress_recorded', 'checkpoint_resume')
+
+
+@spec
+def if_load_context(c):
+    """the load context an _If hands to its stepper's recreate_from"""
+    return (isinstance(c, LoadSaveContext) and wf_lsc(c) and dhas(c._values, 'if_instruction') and dhas(c._values, 'workchain')
+            and type_is(dget(c._values, 'if_instruction'), _If) and wf_if(dget(c._values, 'if_instruction')))
+
+
+@contract('plumpy.workchains._IfStepper.load_instance_state', props=['C07', 'C08'], ghost=['M'])
+def ifstepper_load(self, saved_state, load_context, M=None):
+    """restoring an if-stepper: the recorded position, the instruction and workchain of the load context, and the branch in
+    progress rebuilt BY THE BODY OF THE BRANCH THE POSITION NAMES from the recorded state -- no recorded branch, no child"""
+    requires(M == '_pos')
+    requires(type_is(self, _IfStepper) and is_dict(saved_state) and wf_state(saved_state) and owned_state(saved_state))
+    requires(if_load_context(load_context))
+    assumes('position_recorded_as_a_plain_value', not has_meta_type(saved_state, '_pos'))
+    ifi = dget(load_context._values, 'if_instruction')
+    pos = dget(saved_state, '_pos')
+    has_child = dhas(saved_state, 'stepper_state') and dget(saved_state, 'stepper_state') is not None
+    assumes('position_in_range', implies(dhas(saved_state, '_pos') and has_child, is_int(pos) and 0 <= ival(pos) and ival(pos) < len(seq(ifi._ifs))
+                                         and type_is(seq(ifi._ifs)[ival(pos)], _Conditional) and type_is(seq(ifi._ifs)[ival(pos)]._body, _Block)))
+    modifies(user_effects, fields(self), ghost('LOADED'), ghost('FORINSTR'))
+    ensures('position_restored', self._pos is pos)
+    ensures('instruction_and_workchain_from_the_context', self._if_instruction is ifi and self._workchain is dget(load_context._values, 'workchain'))
+    ensures('branch_rebuilt_by_the_branch_the_position_names', implies(has_child,
+            self._child_stepper is ghost('LOADED', dget(saved_state, 'stepper_state'))
+            and ghost('FORINSTR', self._child_stepper) is seq(ifi._ifs)[ival(pos)]._body))
+    ensures('no_recorded_branch_no_child', implies(not has_child, self._child_stepper is None))
+    raises(KeyError, not dhas(saved_state, '_pos'))
+    raises(Exception, has_child)
+    replay('position_restored', 'checkpoint_resume')
+    replay('branch_rebuilt_by_the_branch_the_position_names', 'checkpoint_resume')
+    replay('no_recorded_branch_no_child', 'checkpoint_resume')
+
+
+@contract('plumpy.workchains._Block.recreate_stepper', props=['C07', 'C08'])
+def block_recreate_stepper(self, saved_state, workchain):
+    """a block rebuilds ITS stepper from the recorded state (load context: this block, this workchain)"""
+    requires(type_is(self, _Block))
+    assumes('a_saved_stepper_state', stepper_state_ok(saved_state))
+    modifies(user_effects, ghost('LOADED'), ghost('FORINSTR'))
+    ghost_update('FORINSTR', ret, self)
+    ghost_update('LOADED', saved_state, ret)
+    ensures('its_own_stepper', type_is(ret, _BlockStepper) and fresh(ret) and ghost('FORINSTR', ret) is self and ghost('LOADED', saved_state) is ret
+            and ret._block is self and ret._workchain is workchain)
+    raises(Exception, True)
+
+
+@spec
+def block_load_context(c):
+    return (isinstance(c, LoadSaveContext) and wf_lsc(c) and dhas(c._values, 'block_instruction') and dhas(c._values, 'workchain')
+            and type_is(dget(c._values, 'block_instruction'), _Block))
+
+
+@contract('plumpy.workchains._BlockStepper.save_instance_state', props=['C07', 'C08'], ghost=['M', 'K'])
+def blockstepper_save(self, out_state, save_context, M=None, K=None):
+    """a block stepper's checkpoint: the position, and the state of the instruction in progress exactly when there is one"""
+    requires(M == '_pos' and K == 'stepper_state')
+    requires(type_is(self, _BlockStepper))
+    requires(is_int(self._pos) and (self._child_stepper is None or isinstance(self._child_stepper, Stepper)))
+    requires(is_dict(out_state) and wf_state(out_state) and not dhas(out_state, 'stepper_state'))
+    child = self._child_stepper
+    modifies(contents(out_state), contents(dget(out_state, '!!meta'), when=dhas(out_state, '!!meta')),
+             contents(dget(dget(out_state, '!!meta'), 'types'), when=dhas(out_state, '!!meta') and dhas(dget(out_state, '!!meta'), 'types')),
+             ghost('LASTSAVED'), self._persist_configured)
+    ensures('position_recorded', dhas(out_state, '_pos') and dget(out_state, '_pos') is self._pos)
+    ensures('instruction_in_progress_recorded', dhas(out_state, 'stepper_state') == (child is not None)
+            and implies(child is not None, is_dict(dget(out_state, 'stepper_state'))
+                        and uf('saved_of', dget(out_state, 'stepper_state')) is child))
+    raises(Exception, child is not None)
+    replay('position_recorded', 'checkpoint_resume')
+    replay('instruction_in_progress_recorded', 'checkpoint_resume')
+
+
+@contract('plumpy.workchains._BlockStepper.load_instance_state', props=['C07', 'C08'], ghost=['M'])
+def blockstepper_load(self, saved_state, load_context, M=None):
+    """restoring a block stepper: the recorded position, block and workchain from the load context, and the instruction in
+    progress rebuilt BY THE INSTRUCTION THE POSITION NAMES from its recorded state"""
+    requires(M == '_pos')
+    requires(type_is(self, _BlockStepper) and is_dict(saved_state) and wf_state(saved_state) and owned_state(saved_state))
+    requires(block_load_context(load_context))
+    assumes('position_recorded_as_a_plain_value', not has_meta_type(saved_state, '_pos'))
+    blk = dget(load_context._values, 'block_instruction')
+    pos = dget(saved_state, '_pos')
+    has_child = dhas(saved_state, 'stepper_state') and dget(saved_state, 'stepper_state') is not None
+    assumes('position_in_range', implies(dhas(saved_state, '_pos') and has_child, is_int(pos) and 0 <= ival(pos) and ival(pos) < len(seq(blk._instruction))
+                                         and isinstance(seq(blk._instruction)[ival(pos)], _Instruction)))
+    modifies(user_effects, fields(self), ghost('LOADED'), ghost('FORINSTR'))
+    ensures('position_restored', self._pos is pos)
+    ensures('block_and_workchain_from_the_context', self._block is blk and self._workchain is dget(load_context._values, 'workchain'))
+    ensures('instruction_rebuilt_by_the_one_the_position_names', implies(has_child,
+            self._child_stepper is ghost('LOADED', dget(saved_state, 'stepper_state'))
+            and ghost('FORINSTR', self._child_stepper) is seq(blk._instruction)[ival(pos)]))
+    ensures('no_recorded_instruction_no_child', implies(not has_child, self._child_stepper is None))
+    raises(KeyError, not dhas(saved_state, '_pos'))
+    raises(Exception, has_child)
+    replay('position_restored', 'checkpoint_resume')
+    replay('instruction_rebuilt_by_the_one_the_position_names', 'checkpoint_resume')
+    replay('no_recorded_instruction_no_child', 'checkpoint_resume')
+
+
+@spec
+def while_load_context(c):
+    return (isinstance(c, LoadSaveContext) and wf_lsc(c) and dhas(c._values, 'while_instruction') and dhas(c._values, 'workchain')
+            and type_is(dget(c._values, 'while_instruction'), _While) and type_is(dget(c._values, 'while_instruction')._body, _Block))
+
+
+@contract('plumpy.workchains._WhileStepper.save_instance_state', props=['C07', 'C08'], ghost=['K'])
+def whilestepper_save(self, out_state, save_context, K=None):
+    """a while stepper's checkpoint: the state of the iteration in progress exactly when there is one"""
+    requires(K == 'stepper_state')
+    requires(type_is(self, _WhileStepper) and (self._child_stepper is None or isinstance(self._child_stepper, Stepper)))
+    requires(is_dict(out_state) and wf_state(out_state) and not dhas(out_state, 'stepper_state'))
+    child = self._child_stepper
+    modifies(contents(out_state), contents(dget(out_state, '!!meta'), when=dhas(out_state, '!!meta')),
+             contents(dget(dget(out_state, '!!meta'), 'types'), when=dhas(out_state, '!!meta') and dhas(dget(out_state, '!!meta'), 'types')),
+             ghost('LASTSAVED'), self._persist_configured)
+    ensures('iteration_in_progress_recorded', dhas(out_state, 'stepper_state') == (child is not None)
+            and implies(child is not None, is_dict(dget(out_state, 'stepper_state'))
+                        and uf('saved_of', dget(out_state, 'stepper_state')) is child))
+    raises(Exception, child is not None)
+    replay('iteration_in_progress_recorded', 'checkpoint_resume')
+
+
+@contract('plumpy.workchains._WhileStepper.load_instance_state', props=['C07', 'C08'])
+def whilestepper_load(self, saved_state, load_context):
+    """restoring a while stepper: instruction and workchain from the context, the iteration in progress rebuilt by the loop body"""
+    requires(type_is(self, _WhileStepper) and is_dict(saved_state) and wf_state(saved_state) and owned_state(saved_state))
+    requires(while_load_context(load_context))
+    wi = dget(load_context._values, 'while_instruction')
+    has_child = dhas(saved_state, 'stepper_state') and dget(saved_state, 'stepper_state') is not None
+    modifies(user_effects, fields(self), ghost('LOADED'), ghost('FORINSTR'))
+    ensures('instruction_and_workchain_from_the_context', self._while_instruction is wi and self._workchain is dget(load_context._values, 'workchain'))
+    ensures('iteration_rebuilt_by_the_loop_body', implies(has_child, self._child_stepper is ghost('LOADED', dget(saved_state, 'stepper_state'))
+                                                          and ghost('FORINSTR', self._child_stepper) is wi._body))
+    ensures('no_recorded_iteration_no_child', implies(not has_child, self._child_stepper is None))
+    raises(Exception, has_child)
+    replay('iteration_rebuilt_by_the_loop_body', 'checkpoint_resume')
+    replay('no_recorded_iteration_no_child', 'checkpoint_resume')
+
+
+@contract('plumpy.workchains._If.recreate_stepper', props=['C07', 'C08'])
+def if_recreate_stepper(self, saved_state, workchain):
+    """an if_ rebuilds ITS stepper from the recorded state (load context: this instruction, this workchain)"""
+    requires(type_is(self, _If) and wf_if(self))
+    assumes('a_saved_stepper_state', stepper_state_ok(saved_state))
+    modifies(user_effects, ghost('LOADED'), ghost('FORINSTR'))
+    ghost_update('FORINSTR', ret, self)
+    ghost_update('LOADED', saved_state, ret)
+    ensures('its_own_stepper', type_is(ret, _IfStepper) and fresh(ret) and ghost('FORINSTR', ret) is self and ghost('LOADED', saved_state) is ret
+            and ret._if_instruction is self and ret._workchain is workchain)
+    raises(Exception, True)
+
+
+@contract('plumpy.workchains._While.recreate_stepper', props=['C07', 'C08'])
+def while_recreate_stepper(self, saved_state, workchain):
+    requires(type_is(self, _While) and type_is(self._body, _Block))
+    assumes('a_saved_stepper_state', stepper_state_ok(saved_state))
+    modifies(user_effects, ghost('LOADED'), ghost('FORINSTR'))
+    ghost_update('FORINSTR', ret, self)
+    ghost_update('LOADED', saved_state, ret)
+    ensures('its_own_stepper', type_is(ret, _WhileStepper) and fresh(ret) and ghost('FORINSTR', ret) is self and ghost('LOADED', saved_state) is ret
+            and ret._while_instruction is self and ret._workchain is workchain)
+    raises(Exception, True)
